@@ -148,6 +148,8 @@ def payload_ok(ctx, payload):
 
 
 def check_case(case):
+    if case.get("kind") == "entity-token":
+        return _check_entity_token(case)
     kind = case["kind"]
     if kind == "ref":
         ctx, payload = case["ctx"], case["payload"]
@@ -283,6 +285,7 @@ def shards(tier):
     for i in range(8):
         out.append({"kind": "encode", "part": i, "of": 8, "stride": 4 if quick else 1})
     out.append({"kind": "encode-named"})
+    out.append({"kind": "entity-tokens"})
     return out
 
 
@@ -411,6 +414,49 @@ def run_shard(desc, seed, tier):
                         acc.add(case, v)
                         acc.count("encoded-codepoints:" + enc, len(text))
         acc.exhaustive = stride == 1
+    elif kind == "entity-tokens":
+        # the walker-format 'Entity' token (an unexpanded entity reference in the tree): whatever the serializer writes for it -
+        # the reference again, or its expansion when resolve_entities is on - must decode to the entity's characters, also when
+        # the following text would continue a reference or a tag
+        from html5lib.serializer import HTMLSerializer
+        names = sorted(n[:-1] for n in HTML5 if n.endswith(";"))
+        tails = ["", "x", "lt;y", "#65;", "b>", "amp;", ";"]
+        for resolve in (True, False):
+            ser = HTMLSerializer(omit_optional_tags=False, resolve_entities=resolve)
+            for i in range(0, len(names), 40):
+                for tail in tails:
+                    group = names[i:i + 40]
+
+                    def run(ns):
+                        stream = []
+                        want = []
+                        for nm in ns:
+                            stream += [{"type": "StartTag", "name": "p", "namespace": "http://www.w3.org/1999/xhtml", "data": {}}, {"type": "Characters", "data": "a"},
+                                       {"type": "Entity", "name": nm}] + ([{"type": "Characters", "data": tail}] if tail else []) + \
+                                      [{"type": "EndTag", "name": "p", "namespace": "http://www.w3.org/1999/xhtml"}]
+                            want.append("a" + HTML5[nm + ";"] + tail)
+                        out = ser.render(stream)
+                        r, _ = h5.parse(out, container="div")
+                        got = []
+                        cur = None
+                        for x in obs.flat(r)[1:]:
+                            if x[1] == "elem" and x[0] == 1:
+                                cur = []
+                                got.append(cur)
+                            elif x[1] == "text" and cur is not None:
+                                cur.append(x[2])
+                        return ["".join(g) for g in got], want, out
+                    got, want, out = run(group)
+                    if got == want and not ser.errors:
+                        acc.add({"kind": "entity-token", "names": group[:2], "tail": tail, "resolve": resolve}, Verdict("pass", nontrivial=True, sig=sig64("ent", i, tail, resolve)))
+                        acc.count("entity-tokens", len(group))
+                        continue
+                    for nm in group:
+                        g1, w1, o1 = run([nm])
+                        if g1 != w1:
+                            acc.add({"kind": "entity-token", "names": [nm], "tail": tail, "resolve": resolve},
+                                    Verdict("fail", "Entity token %r followed by text %r (resolve_entities=%s) is written as %s, which decodes to %r instead of %r"
+                                            % (nm, tail, resolve, short(o1, 80), g1, w1), "entity-token:%s" % ("resolved" if resolve else "kept"), nontrivial=True))
     elif kind == "encode-named":
         # every code point that has a name in the standard's table (these are the ones the serializer writes as named
         # references), in every tier, each followed by the characters that would be misread after an unterminated name
@@ -434,6 +480,22 @@ def run_shard(desc, seed, tier):
                             acc.add(case, v)
                             acc.count("encoded-named-codepoints:" + enc, len(ch))
     return acc
+
+
+def _check_entity_token(case):
+    """replay form of one unit of the 'entity-tokens' shard"""
+    from html5lib.serializer import HTMLSerializer
+    nm, tail, resolve = case["names"][0], case["tail"], case["resolve"]
+    ser = HTMLSerializer(omit_optional_tags=False, resolve_entities=resolve)
+    stream = [{"type": "Characters", "data": "a"}, {"type": "Entity", "name": nm}] + ([{"type": "Characters", "data": tail}] if tail else [])
+    out = ser.render(stream)
+    r, _ = h5.parse(out, container="div")
+    got = "".join(x[2] for x in obs.flat(r) if x[1] == "text")
+    want = "a" + HTML5[nm + ";"] + tail
+    if got != want:
+        return Verdict("fail", "Entity token %r followed by text %r (resolve_entities=%s) is written as %s, which decodes to %r instead of %r" % (nm, tail, resolve, short(out, 80), got, want),
+                       "entity-token:%s" % ("resolved" if resolve else "kept"), nontrivial=True)
+    return Verdict("pass", nontrivial=True)
 
 
 def finish(cov, total, tier):
